@@ -354,7 +354,27 @@ struct Ctx {
     inv_count: Cell<usize>,
     crash_at: Cell<Option<usize>>,
 }
+/// counts the closures handed to the library that have not been dropped yet (C12: captured values
+/// are released together with their node)
+struct Guard;
+impl Guard {
+    fn new() -> Guard {
+        LIVE_CLOSURES.with(|c| c.set(c.get() + 1));
+        Guard
+    }
+}
+impl Drop for Guard {
+    fn drop(&mut self) {
+        LIVE_CLOSURES.with(|c| c.set(c.get() - 1));
+    }
+}
+impl Clone for Guard {
+    fn clone(&self) -> Guard {
+        Guard::new()
+    }
+}
 thread_local! {
+    static LIVE_CLOSURES: Cell<i64> = Cell::new(0);
     static CTX: RefCell<Option<Rc<Ctx>>> = RefCell::new(None);
     static LAST_PANIC: RefCell<Option<(String, String)>> = RefCell::new(None);
 }
@@ -466,7 +486,11 @@ fn apply_cutoff(n: &I, c: &CutoffD) {
         }),
         CutoffD::Boxed(cid) => {
             let cid = *cid;
-            n.set_cutoff_fn_boxed(move |a: &Val, b: &Val| cut_logged(cid, a, b))
+            let g = Guard::new();
+            n.set_cutoff_fn_boxed(move |a: &Val, b: &Val| {
+                let _g = &g;
+                cut_logged(cid, a, b)
+            })
         }
     }
 }
@@ -476,7 +500,9 @@ fn mk_map(state: &WeakState, fid: i64, cap: i64, effs: Vec<Effect>, args: &[I]) 
     let _ = state;
     let rank = Rc::new(Cell::new(usize::MAX));
     let r2 = rank.clone();
+    let g = Guard::new();
     let call = move |vals: &[&Val]| -> Val {
+        let _g = &g;
         let owned: Vec<Val> = vals.iter().map(|v| (*v).clone()).collect();
         user_call();
         run_effects(owned.first().unwrap_or(&Val::Unit), &effs);
@@ -506,7 +532,9 @@ fn mk_mapref(p: i64, arg: &I) -> I {
 fn mk_mapold(fid: i64, cap: i64, arg: &I) -> I {
     let rank = Rc::new(Cell::new(usize::MAX));
     let r2 = rank.clone();
+    let g = Guard::new();
     let node = arg.map_with_old(move |old: Option<Val>, x: &Val| {
+        let _g = &g;
         user_call();
         let (new, ch) = wo_sem(fid, cap, &old, x);
         let args: Vec<Val> = match &old {
@@ -522,7 +550,9 @@ fn mk_mapold(fid: i64, cap: i64, arg: &I) -> I {
 fn mk_fold(state: &WeakState, fid: i64, cap: i64, init: i64, args: Vec<I>) -> I {
     let rank = Rc::new(Cell::new(usize::MAX));
     let r2 = rank.clone();
+    let g = Guard::new();
     let node = state.fold(args, Val::Int(init), move |acc: Val, x: &Val| {
+        let _g = &g;
         user_call();
         let r = fold_sem(fid, cap, &acc, x);
         ev(format!("foldcall {} {:?} {:?} -> {:?}", r2.get(), acc, x, r));
@@ -665,7 +695,9 @@ fn mk_bind(state: &WeakState, lhs: &I, f: BindFn) -> I {
     let r2 = rank.clone();
     let gen = Cell::new(0i64);
     let st = state.clone();
+    let g = Guard::new();
     let main = lhs.bind(move |lhsv: &Val| {
+        let _g = &g;
         user_call();
         ev(format!("bindrun {} gen={} lhs={:?}", r2.get(), gen.get(), lhsv));
         gen.set(gen.get() + 1);
@@ -867,7 +899,9 @@ impl Interp {
                 let tok = Rc::new(Cell::new(-1i64));
                 let tok2 = tok.clone();
                 let ob = self.obs0(o).expect("subscribe on dropped observer");
+                let g = Guard::new();
                 let r = ob.try_subscribe(move |u: Update<&Val>| {
+                    let _g = &g;
                     user_call();
                     let (kind, v) = match u {
                         Update::Initialised(v) => ("Initialised", Some(v.clone())),
@@ -982,6 +1016,11 @@ impl Interp {
                 let h = p.nat();
                 let n = self.ctx.hnodes.borrow_mut()[h].take();
                 drop(n);
+                "ok".into()
+            }
+            "dropexports" => {
+                let ex = std::mem::take(&mut *self.ctx.exports.borrow_mut());
+                drop(ex);
                 "ok".into()
             }
             "dropvar" => {
@@ -1102,13 +1141,20 @@ fn run_history(id: &str, max_height: usize, dump: bool, lines: &[String], out: &
             }
         }
     }
+    let closures_before = LIVE_CLOSURES.with(|c| c.get());
     // drop everything: observers first is the friendliest order; drop panics are reported
     let r = catch_unwind(AssertUnwindSafe(move || {
         CTX.with(|c| *c.borrow_mut() = None);
         drop(it);
     }));
     match r {
-        Ok(()) => writeln!(out, "end ok").unwrap(),
+        Ok(()) => writeln!(
+            out,
+            "end ok closures_before_drop={} closures_after_drop={}",
+            closures_before,
+            LIVE_CLOSURES.with(|c| c.get())
+        )
+        .unwrap(),
         Err(_) => writeln!(out, "end panic").unwrap(),
     }
     out.flush().unwrap();
